@@ -20,6 +20,7 @@ type frameSpec struct {
 	Cid      string `json:"cid"`
 	Truncate int    `json:"truncate,omitempty"`
 	PayloadLimit int `json:"payload_limit,omitempty"`
+	Headers      map[string]string `json:"headers,omitempty"`
 }
 
 type replyDesc struct {
